@@ -250,6 +250,7 @@ func TestVerif_C03(t *testing.T) {
 	c03Responder(t, r, work)
 	c03Initiator(t, r, work)
 	c03MeshPairs(t, r, work)
+	c03TransitOriginates(t, r, work)
 	r.Require("responder_acks_with_matching_key", 20)
 	r.Require("degenerate_keys_refused", 20)
 	r.Require("mesh_tunnels_with_paired_keys", 5)
@@ -725,5 +726,124 @@ func c03MeshPairs(t *testing.T, r *verifkit.R, work string) {
 		if r.NeedSample() {
 			r.Sample(map[string]any{"phase": "mesh", "tunnels_completed": ok, "keys_paired": paired, "kinds": "tcp,forward,shell,file-upload,file-download"})
 		}
+	})
+}
+
+
+// ---------------------------------------------------------------- transit originates while relaying
+//
+// Every agent numbers its open requests 1, 2, 3 ...; two ingress agents routinely use the same
+// request id. Here the transit of the ingress's tunnel has an open of its OWN in flight with the
+// very same request id (its acknowledgement is held back at the exit's write hook) while the
+// acknowledgement of the ingress's tunnel passes through it. Each tunnel's two ends must still
+// agree on a key of their own: the oracle is the derivation log (every fingerprint exactly once
+// as initiator and once as responder) plus both tunnels carrying their bytes.
+func c03TransitOriginates(t *testing.T, r *verifkit.R, work string) {
+	r.Cases("transit-originates", r.N(3, 20), func(ci int, rng *verifkit.Rand) {
+		dest, err := mkStartDest()
+		if err != nil {
+			r.Inconclusive(err.Error())
+			return
+		}
+		defer dest.close()
+		tap := mkInstallTap()
+		defer tap.close()
+		ct := mkInstallCryptoTap(false)
+		defer ct.close()
+		m, err := c03Mesh(t, 3, dest, work+"/**")
+		if err != nil {
+			r.Inconclusive("mesh did not come up: " + err.Error())
+			return
+		}
+		defer m.stop()
+		ing, tr, exit := m.nodes[0].a, m.nodes[1].a, m.nodes[2].a
+		if err := m.waitRoute(1, "127.1.0.1", 2, 30*time.Second); err != nil {
+			r.Inconclusive(err.Error())
+			return
+		}
+		// align the two request-id counters (NextRequestID hands out and advances)
+		ia, ib := ing.streamMgr.NextRequestID(), tr.streamMgr.NextRequestID()
+		for ia < ib {
+			ia = ing.streamMgr.NextRequestID()
+		}
+		for ib < ia {
+			ib = tr.streamMgr.NextRequestID()
+		}
+		var armed atomic.Bool
+		var held atomic.Int64
+		tap.mu.Lock()
+		tap.onPayload = func(ev *mkFrameEv, payload []byte) {
+			if ev.Write && ev.Local == exit.ID() && ev.Type == protocol.FrameStreamOpenAck && armed.CompareAndSwap(true, false) {
+				held.Add(1)
+				time.Sleep(time.Duration(150+rng.Intn(200)) * time.Millisecond)
+			}
+		}
+		tap.mu.Unlock()
+		rounds := rng.Range(2, 5)
+		okOwn, okRelayed := 0, 0
+		for k := 0; k < rounds; k++ {
+			via := []string{"tcp", "forward:fwd-exit"}[rng.Intn(2)]
+			own := mkTunnelPlan{ID: uint64(ci)<<20 + 0x2000 + uint64(k), Ingress: 1, Via: via, Dest: fmt.Sprintf("127.1.8.%d:%d", 1+k, dest.port), C2S: 700, S2C: 700, Mode: mkModeOrderly, Chunk: 200}
+			rel := mkTunnelPlan{ID: uint64(ci)<<20 + 0x3000 + uint64(k), Ingress: 0, Via: []string{"tcp", "forward:fwd-exit"}[rng.Intn(2)], Dest: fmt.Sprintf("127.1.9.%d:%d", 1+k, dest.port), C2S: 700, S2C: 700, Mode: mkModeOrderly, Chunk: 200}
+			var wg sync.WaitGroup
+			var csOwn, csRel *mkClientSide
+			armed.Store(true) // the next acknowledgement the exit writes (the transit's own open) is held back
+			wg.Add(2)
+			go func() { defer wg.Done(); csOwn = mkRunTunnel(m, own, 8*time.Second) }()
+			time.Sleep(time.Duration(20+rng.Intn(40)) * time.Millisecond)
+			go func() { defer wg.Done(); csRel = mkRunTunnel(m, rel, 8*time.Second) }()
+			wg.Wait()
+			armed.Store(false)
+			for _, x := range []struct {
+				cs   *mkClientSide
+				who  string
+				okp  *int
+			}{{csOwn, "the transit's own tunnel", &okOwn}, {csRel, "the tunnel relayed through the transit", &okRelayed}} {
+				ss := dest.side(x.cs.Plan.ID)
+				if x.cs.DialErr == "" && x.cs.Got == 700 && x.cs.BadAt < 0 && ss != nil && ss.Got == 700 && ss.BadAt < 0 {
+					*x.okp++
+					continue
+				}
+				srv := int64(-1)
+				if ss != nil {
+					srv = ss.Got
+				}
+				r.Violation("transit-originates:tunnel-did-not-carry-its-bytes", "transit-originates", ci,
+					fmt.Sprintf("%s (request id shared with the other agent's open, round %d) failed: dial=%q s2c=%d/700 c2s=%d/700 rerr=%q werr=%q", x.who, k, x.cs.DialErr, x.cs.Got, srv, x.cs.ReadErr, x.cs.WriteErr), nil)
+			}
+		}
+		ct.mu.Lock()
+		type pair struct{ ini, rsp int }
+		per := map[[8]byte]*pair{}
+		for _, e := range ct.derived {
+			p := per[e.FP]
+			if p == nil {
+				p = &pair{}
+				per[e.FP] = p
+			}
+			if e.Initiator {
+				p.ini++
+			} else {
+				p.rsp++
+			}
+		}
+		ct.mu.Unlock()
+		paired := 0
+		for fp, p := range per {
+			switch {
+			case p.ini == 1 && p.rsp == 1:
+				paired++
+			case p.ini+p.rsp == 1:
+				r.Violation("transit-originates:key-held-by-one-end-only", "transit-originates", ci, fmt.Sprintf("session key %x was derived by one end only (initiator=%d responder=%d) while a transit had an open of its own in flight under the request id of a tunnel it relays", fp, p.ini, p.rsp), nil)
+			default:
+				r.Violation("transit-originates:key-shared-across-tunnels", "transit-originates", ci, fmt.Sprintf("session key %x derived %d times as initiator and %d times as responder", fp, p.ini, p.rsp), nil)
+			}
+		}
+		r.Add("transit_originates_rounds", rounds)
+		r.Add("transit_originates_acks_held_back", int(held.Load()))
+		r.Add("transit_originates_own_tunnels_ok", okOwn)
+		r.Add("transit_originates_relayed_tunnels_ok", okRelayed)
+		r.Add("mesh_tunnels_with_paired_keys", paired)
+		r.Eval(fmt.Sprintf("transit-originates/%d/%d/%d", ci, rounds, paired), held.Load() > 0 && paired >= 2)
 	})
 }
